@@ -1,16 +1,16 @@
 SPECIFICATION Spec
 CONSTANTS
-  Keys <- MCKeys
+  Keys <- MCKeysInc
   Loose0 <- MCLoose0
-  Packed0 <- MCPacked0
+  Packed0 <- MCPacked0Inc
   AddKeys <- MCAdds
   DirectKeys <- MCDirect
-  PackRounds = 2
-  CleanRounds = 2
+  PackRounds = 1
+  CleanRounds = 1
   Order <- OrderCode
-  PrevIdx <- MCPrevIdx
-  Incremental = FALSE
-  IdxByChecksum = TRUE
+  PrevIdx <- MCPrevIdxInc
+  Incremental = TRUE
+  IdxByChecksum = FALSE
   RestCopiesLiveIndex = FALSE
 INVARIANT BackupValid
 INVARIANT SourceOK
